@@ -190,7 +190,23 @@ def unordered_iteration(ctx: Ctx) -> None:
     test_ids = {id(t.ast) for t in gad.nodes if t.kind == "test"}
     sorted_args = {id(a) for c in calls_in(ad.node) if unparse(c.func).endswith("sort_types") for a in c.args}
     uses = [x for x in walk_no_nested(ad.node) if isinstance(x, ast.Name) and x.id == "types" and isinstance(x.ctx, ast.Load)]
-    ok = bool(sorted_args) and all(id(x) in test_ids or id(x) in sorted_args for x in uses)
+    # a named condition (`is_bound = key.endswith("clusive") and types`, used only in tests) is a truth test as well
+    from ..cfg import _condition_temps
+
+    ctemps = _condition_temps(ad.node)
+    def _truth_operands(e: ast.expr):
+        if isinstance(e, ast.BoolOp):
+            for v_ in e.values:
+                yield from _truth_operands(v_)
+        elif isinstance(e, ast.UnaryOp) and isinstance(e.op, ast.Not):
+            yield from _truth_operands(e.operand)
+        else:
+            yield e
+
+    in_tests = {id(x) for st in walk_no_nested(ad.node) if isinstance(st, (ast.If, ast.While, ast.IfExp)) for x in _truth_operands(st.test)}
+    tested_only = {nm for nm in ctemps if all(id(x) in in_tests or id(x) in test_ids for x in walk_no_nested(ad.node) if isinstance(x, ast.Name) and x.id == nm and isinstance(x.ctx, ast.Load))}
+    in_named_condition = {id(x) for st, tgt, v in stores(ad.node) if isinstance(tgt, ast.Name) and tgt.id in tested_only and v is not None for x in ast.walk(v)}
+    ok = bool(sorted_args) and all(id(x) in test_ids or id(x) in sorted_args or id(x) in in_named_condition for x in uses)
     ctx.ob("Restrictions.asdict uses the (unordered) types it is given only through converter.sort_types(types) or as a truth test", ok, at=ad, construct="asdict sorts types", msg="facet conversion uses an unordered type list")
     n_dep = 0
     for f in ctx.repo.funcs_in(*SCOPE):
@@ -294,7 +310,7 @@ def id_discipline(ctx: Ctx) -> None:
                 ok = False
         if any(isinstance(x, ast.Attribute) and x.attr == "sequence" for x in ast.walk(v)):
             ok = False
-    ok = ok and seeded and any(isinstance(x, ast.Attribute) and x.attr == "attrs" for l in walk_no_nested(rn.node) if isinstance(l, ast.For) for x in ast.walk(l.iter))
+    ok = ok and seeded and any(isinstance(x, ast.Attribute) and x.attr == "attrs" for l in walk_no_nested(rn.node) if isinstance(l, (ast.For, ast.comprehension)) for x in ast.walk(l.iter))
     ctx.ob("ResetAttributeSequenceNumbers overwrites every id-valued sequence with a counter (start = next free number of the bases, +1 per group, groups in attr order)", ok, at=rn, construct="renumbering", msg="renumbering changed")
     g = ctx.repo.func("xsdata.codegen.handlers.reset_attribute_sequence_numbers:ResetAttributeSequenceNumbers.find_next_sequence_number")
     ctx.ob("find_next_sequence_number takes the maximum over base_attrs (bases are finalised, i.e. renumbered, first)", any(unparse(c.func) == "self.base_attrs" for c in calls_in(g.node)), at=g, construct="max over renumbered bases", msg="max over raw ids")
